@@ -346,6 +346,11 @@ func (h *httproto) unpack(m erpc.Message, bb *utils.ByteBuffer) (size int, msg [
 			msg = append(msg, '\r', '\n')
 		}
 		size += bb.Len()
+		// the header lines count towards the size of the message
+		if uint64(size) > uint64(erpc.GetReadLimit()) {
+			m.SetBodyCodec(codec.NilCodecID)
+			return 0, nil, errExceedReadLimit
+		}
 		// blank line, to read body
 		if bb.Len() == 0 {
 			break
@@ -365,7 +370,6 @@ func (h *httproto) unpack(m erpc.Message, bb *utils.ByteBuffer) (size int, msg [
 			if err != nil {
 				return 0, nil, errBadHTTPMsg
 			}
-			size += bodySize
 			continue
 		}
 		if bytes.Equal(xContentEncodingBytes, a[0]) {
@@ -399,8 +403,10 @@ func (h *httproto) unpack(m erpc.Message, bb *utils.ByteBuffer) (size int, msg [
 	if bodySize <= 0 {
 		return size, msg, nil
 	}
-	// the announced size must respect the read limit before the body buffer is allocated
-	if uint64(size) > uint64(erpc.GetReadLimit()) {
+	// the announced size (the last Content-Length counts, as it decides the allocation)
+	// must respect the read limit before the body buffer is allocated
+	size += bodySize
+	if uint64(bodySize) > uint64(erpc.GetReadLimit()) || uint64(size) > uint64(erpc.GetReadLimit()) {
 		// the body stays unread: clear the codec so that the session disconnects
 		// instead of answering and then parsing the body as the next message
 		m.SetBodyCodec(codec.NilCodecID)
